@@ -179,42 +179,52 @@ func run(c Case) (v kit.Verdict) {
 		v.Addf("C16/entry/"+reqShape(mq)+"/request-not-recorded", "ModifyRequest = %v, the log holds %d entries for one well-formed exchange", reqErr, len(exported.Log.Entries))
 		return v
 	}
-	e := exported.Log.Entries[0]
+	v = append(v, checkEntry(c, mq, ms, exported.Log.Entries[0], resErr)...)
+	back, rv := roundTrip(l, exported, c.Handler)
+	v = append(v, rv...)
+	if back != nil {
+		v = append(v, compareEntries(exported.Log.Entries[0], back.Log.Entries[0])...)
+	}
+	return v
+}
+
+// checkEntry compares one exported entry with the generated exchange.
+func checkEntry(c Case, mq, ms *msggen.Message, e *har.Entry, resErr error) (v kit.Verdict) {
 	v = append(v, checkRequest(c, mq, e.Request)...)
 	if resErr != nil || e.Response == nil {
 		v.Addf("C16/content/"+resShape(ms)+"/response-not-recorded", "ModifyResponse = %v, the entry has response=%v for a well-formed %d answer to %s", resErr, e.Response != nil, ms.Status, mq.Method)
 	} else {
 		v = append(v, checkResponse(c, ms, e.Response)...)
 	}
+	return v
+}
 
-	// JSON round trip
+// roundTrip marshals the export (directly or through the export handler) and
+// parses it back; back is nil when that failed or the entry count changed.
+func roundTrip(l *har.Logger, exported *har.HAR, handler bool) (back *har.HAR, v kit.Verdict) {
 	var raw []byte
-	if c.Handler {
+	var err error
+	if handler {
 		rw := httptest.NewRecorder()
 		har.NewExportHandler(l).ServeHTTP(rw, httptest.NewRequest("GET", "/logs", nil))
 		if rw.Code != 200 {
-			v.Addf("C16/json-roundtrip/export-handler/status", "export handler answered %d", rw.Code)
-			return v
+			return nil, kit.Failf("C16/json-roundtrip/export-handler/status", "export handler answered %d", rw.Code)
 		}
 		raw = rw.Body.Bytes()
 	} else {
 		raw, err = json.Marshal(exported)
 		if err != nil {
-			v.Addf("C16/json-roundtrip/marshal/error", "json.Marshal(Export()) = %v", err)
-			return v
+			return nil, kit.Failf("C16/json-roundtrip/marshal/error", "json.Marshal(Export()) = %v", err)
 		}
 	}
-	var back har.HAR
-	if err := json.Unmarshal(raw, &back); err != nil {
-		v.Addf("C16/json-roundtrip/unmarshal/error", "the exported JSON does not parse back: %v", err)
-		return v
+	back = &har.HAR{}
+	if err := json.Unmarshal(raw, back); err != nil {
+		return nil, kit.Failf("C16/json-roundtrip/unmarshal/error", "the exported JSON does not parse back: %v", err)
 	}
-	if back.Log == nil || len(back.Log.Entries) != 1 {
-		v.Addf("C16/json-roundtrip/entries/count-differs", "the JSON holds no single entry")
-		return v
+	if back.Log == nil || len(back.Log.Entries) != len(exported.Log.Entries) {
+		return nil, kit.Failf("C16/json-roundtrip/entries/count-differs", "the JSON does not hold the %d exported entries", len(exported.Log.Entries))
 	}
-	v = append(v, compareEntries(e, back.Log.Entries[0])...)
-	return v
+	return back, nil
 }
 
 func checkRequest(c Case, m *msggen.Message, r *har.Request) (v kit.Verdict) {
@@ -694,4 +704,4 @@ func TestEntry(t *testing.T) {
 	propEntry.Check(t, kit.N(4000, 25000))
 }
 
-func TestReplay(t *testing.T) { kit.Replay(t, propEntry, propMatrix) }
+func TestReplay(t *testing.T) { kit.Replay(t, propEntry, propMatrix, propSequence) }
